@@ -370,6 +370,27 @@ def _run(scn, w, res):
     if diffs:
         res.add("cache", {"kind": "cache_differs", "regs": ",".join(d.split()[1] for d in diffs)},
                 "entering the `with` block rewrote: %s (history %r)" % ("; ".join(diffs), names[-6:]))
+    # ---- ... and after somebody else used the radio in between (its registers re-programmed by another object), entering the
+    # block again puts every configuration register back to what this object holds
+    if not res.violations and scn["seed"] % 3 == 0:
+        established = radio.config_snapshot()
+        drv.__exit__(None, None, None)
+        dirty_chip(radio, stream(scn["seed"], "foreign"))
+        radio.rx_fifo.clear()
+        if not radio.plus:
+            radio.features_active = True
+        drv.__enter__()
+        now = radio.config_snapshot()
+        diffs = []
+        for reg in CFG_REGS:
+            b_, a_ = established[reg], now[reg]
+            if reg == 0:
+                b_, a_ = bytes([b_[0] & 0x7D]), bytes([a_[0] & 0x7D])
+            if a_ != b_:
+                diffs.append("reg 0x%02X radio=%s established=%s" % (reg, now[reg].hex(), established[reg].hex()))
+        if diffs:
+            res.add("cache", {"kind": "not_restored_after_foreign_use", "regs": ",".join(d.split()[1] for d in diffs)},
+                    "re-entering the `with` block after another object had re-programmed the radio left: %s (history %r)" % ("; ".join(diffs), names[-6:]))
     res.nontrivial = changed
     import hashlib
     res.isig = hashlib.blake2b(repr((names, scn["plus"], scn["dirty"])).encode(), digest_size=8).hexdigest()
